@@ -270,6 +270,14 @@ def split4(s):
     s.pump(c2)
 
 
+def overwrite_failover(s):
+    """put(k,v1), put(k,v2) acknowledged; the followers apply both when they learn the commit index (ApplyLog / ApplyLogEntry, not the
+    leader's applyLoop); the leader crashes; a former follower is elected and serves get(k): v2"""
+    S.overwrite_same_key(s.h, mk=lambda h, p: s)
+    s.do(("ECrash", 1)); s.do(("EFdUpdate", 1))
+    s.try_elect(2, [3])
+
+
 def stale_leader_core(s):
     """corpus/C08/stale_leader.json (two elections, stale leader of term 3 while term 4 commits), with a second client"""
     import vlib
@@ -297,6 +305,10 @@ SCENARIOS = [
      "leader crashes after acknowledging put(k,v2); the follower that misses the entry stands for election first"),
     ("split4", dict(P3, n=4), split4,
      "4 servers split in two halves, both hold an election and serve a client: half of the servers is not a quorum"),
+    ("overwrite_failover", dict(P3, crashers=[1]), overwrite_failover,
+     "the same key written twice, followers apply both, leader crashes, a former follower serves get(k)"),
+    ("stale_matchindex_clients", dict(P3, n=5, crashers=[1, 5]), lambda s: S.stale_matchindex(s.h, mk=lambda h, p: s),
+     "corpus/C08 stale_matchindex (re-elected leader, Put on 2 of 5 servers, minority crash) with clients completing their operations"),
     ("figure8_clients", C08_PARAMS["figure8"], lambda s: S.figure8(s.h, mk=lambda h, p: s), "corpus/C08 figure8 with clients completing their operations"),
     ("deposed_leader_clients", C08_PARAMS["deposed_leader"], lambda s: S.deposed_leader(s.h, mk=lambda h, p: s),
      "corpus/C08 deposed_leader with clients completing their operations"),
